@@ -295,7 +295,7 @@ def zero_module(name, rng, order=None, ids=None):
     lines.append("END")
     m = {"name": name, "default": default, "defs": [("Frame", None), ("Wrap", None)] + defs, "trees": trees, "text": "\n".join(lines) + "\n",
          "idkind": "int", "idtree": retag(idbase, tagnum("CONTEXT", 0)), "open_tags": [tagnum("CONTEXT", 1)], "groups": [rows], "rows": rows, "ncols": 1, "mcols": [0],
-         "ext": False, "lone": False, "untagged": False, "simple": True, "idcon": None, "members": ["value"],
+         "ext": False, "lone": False, "untagged": False, "simple": False, "idcon": None, "members": ["value"],
          "fields": legacy_fields(1), "ic": 0, "tcols": [1], "shape": "legacy", "setstyle": "plain", "classname": "MY-CLASS", "zero": True}
     m["egroups"] = legacy_egroups(m)
     return m
